@@ -209,3 +209,31 @@ Definition join_bad (x : join_case) : list (nat * option (option view) * option 
   map (fun o : join_obs => let '(running, lasti, st, _, _, _) := o in
          (lasti, tres_view (trickery c t running lasti st), blocks t lasti, trim_depth t lasti))
       (filter (fun o => negb (join_obs_ok c t o)) l).
+
+(* live: states of real frames observed by the runtime legs (f_lasti and the ground truth logged
+   by instrumented managers, with-sites identified through co_positions) must be observations
+   the certified machine offers at that position: validates M_WithMachine (the CPython model)
+   against the real interpreter, independently of stackscope's analysis *)
+(* a sync manager inside __enter__ has no truth entry in the machine yet, while the instrumented
+   managers log it as "entering": entries still entering are ignored on both sides (the property
+   demands nothing of them) *)
+Definition not_entering (e : tent unit) : bool := negb (phase_eqb (t_phase e) Entering).
+Definition live_obs := (bool * nat * list (tent unit))%type.
+Definition live_case := (code * table * cert * list live_obs)%type.
+Definition live_obs_ok (c : code) (ct : cert) (o : live_obs) : bool :=
+  let '(r, l, tr) := o in
+  existsb (fun p =>
+    match cert_at ct p with
+    | Some a => existsb (fun o' : observation unit =>
+                   let '(r', l', _, tr') := o' in
+                   Bool.eqb r r' && (l =? l')
+                   && list_eqb tent_eqb (filter not_entering tr) (filter not_entering tr')) (obs c a)
+    | None => false
+    end) (seq (l - 9) 10).
+Definition live_ok (x : live_case) : bool := let '(c, _, ct, l) := x in forallb (live_obs_ok c ct) l.
+Definition live_mismatches (cases : list live_case) : list nat := false_indices 0 (map live_ok cases).
+Definition live_nontrivial (cases : list live_case) : nat :=
+  count_true (map (fun x : live_case => let '(_, _, _, l) := x in
+     existsb (fun o : live_obs => let '(_, _, tr) := o in match tr with [] => false | _ => true end) l) cases).
+Definition live_bad (x : live_case) : list live_obs :=
+  let '(c, _, ct, l) := x in filter (fun o => negb (live_obs_ok c ct o)) l.
